@@ -149,12 +149,24 @@ func (e *simEngine) handlerFor(name enc.Name) ndn.InterestHandler {
 }
 
 // deliver an Interest of router `from` to router `to` (adjacent); reply goes back through cb
-func (n *simNet) deliver(from, to int, interest *ndn.EncodedInterest, cb ndn.ExpressCallbackFunc) {
+func (n *simNet) deliver(src *simEngine, to int, interest *ndn.EncodedInterest, cb ndn.ExpressCallbackFunc) {
+	from := src.idx
+	// the requester must still be the same process (not a later incarnation with the same name)
+	same := func() bool {
+		n.mu.Lock()
+		defer n.mu.Unlock()
+		return n.eng[from] == src
+	}
 	time.Sleep(n.delay())
-	if !n.linked(from, to) {
+	if !n.linked(from, to) || !same() {
 		return
 	}
+	n.mu.Lock()
 	dst := n.eng[to]
+	n.mu.Unlock()
+	if dst == nil {
+		return
+	}
 	pi, sigCov, err := spec.Spec{}.ReadInterest(enc.NewWireReader(interest.Wire))
 	if err != nil {
 		n.count("unparsable-interest")
@@ -179,7 +191,7 @@ func (n *simNet) deliver(from, to int, interest *ndn.EncodedInterest, cb ndn.Exp
 			replied = true
 			go func() {
 				time.Sleep(n.dataDelay())
-				if !n.linked(from, to) || n.lost() {
+				if !n.linked(from, to) || !same() || n.lost() {
 					n.count("data-lost")
 					return // lost; the requester's timeout fires
 				}
@@ -208,7 +220,7 @@ func (e *simEngine) Express(interest *ndn.EncodedInterest, cb ndn.ExpressCallbac
 		n.count("sync-interest")
 		for j := range n.eng {
 			if j != e.idx && n.linked(e.idx, j) {
-				go n.deliver(e.idx, j, interest, nil)
+				go n.deliver(e, j, interest, nil)
 			}
 		}
 	case len(name) > 4 && name[0].Equal(config.Localhop[0]) && name[len(name)-2].String() == "32=ADV":
@@ -233,7 +245,7 @@ func (e *simEngine) Express(interest *ndn.EncodedInterest, cb ndn.ExpressCallbac
 			}
 		}
 		if to >= 0 && n.linked(e.idx, to) && !n.lost() {
-			go n.deliver(e.idx, to, interest, once)
+			go n.deliver(e, to, interest, once)
 		} else {
 			n.count("fetch-lost")
 		}
@@ -287,11 +299,13 @@ func (p *protoWorld) stopRouter(i int) {
 		return
 	}
 	eng := p.net.eng[i]
-	p.rt[i].Stop()
-	<-p.done[i]
+	// the process goes away: nothing is delivered to it any more; let what is already running finish first
 	eng.mu.Lock()
 	eng.running = false
 	eng.mu.Unlock()
+	synctest.Wait()
+	p.rt[i].Stop()
+	<-p.done[i]
 	p.net.mu.Lock()
 	p.net.eng[i] = nil
 	p.net.mu.Unlock()
@@ -370,7 +384,41 @@ func runProtoCase(t *testing.T, out *bufio.Writer, r *rand.Rand, k int, n int, e
 		for ph := 0; ph < phases; ph++ {
 			nf := 1 + r.Intn(3)
 			for q := 0; q < nf; q++ {
-				switch r.Intn(6) {
+				switch r.Intn(7) {
+				case 6: // a freshly started router makes many table changes within a few seconds and is restarted at
+					// once (fresh NewRouter, same name) with one link fewer: its neighbours still hold its state and
+					// must notice the new incarnation by its sequence number
+					j := r.Intn(n)
+					peers := []int{}
+					for x := 0; x < n; x++ {
+						if x != j && p.rt[x] != nil && p.net.link[lkey(j, x)] {
+							peers = append(peers, x)
+						}
+					}
+					if len(peers) > 0 {
+						p.stopRouter(j)
+						p.startRouter(j)
+						time.Sleep(2 * time.Second)
+						i := peers[r.Intn(len(peers))]
+						for c := 0; c < 8; c++ {
+							// j drops i (and everything behind it) and re-discovers it through the protocol
+							if p.rt[j].Vf18ExpireNeighbor(p.names[i]) {
+								p.rt[j].Vf18CheckDead()
+							}
+							time.Sleep(300 * time.Millisecond)
+						}
+						if len(peers) > 1 {
+							x := peers[r.Intn(len(peers))]
+							if x != i {
+								p.net.mu.Lock()
+								delete(p.net.link, lkey(j, x))
+								p.net.mu.Unlock()
+							}
+						}
+						p.net.count("quick-restart")
+						p.stopRouter(j)
+						p.startRouter(j)
+					}
 				case 5: // a link goes away while an advertisement of the peer is being processed, and the dead
 					// sweep wins the router lock: advertDataHandler has stored the advertisement and started
 					// `go dv.ribUpdate(ns)`; checkDeadNeighbors removes the neighbour first; the goroutine runs late
@@ -386,7 +434,7 @@ func runProtoCase(t *testing.T, out *bufio.Writer, r *rand.Rand, k int, n int, e
 							delete(p.net.link, lkey(i, j))
 							p.net.mu.Unlock()
 							if ns := p.rt[i].Vf18StoreAdvert(p.names[j], adv); ns != nil {
-								ns.Vf18SetLastSeen(time.Time{})
+								p.rt[i].Vf18ExpireNeighbor(p.names[j])
 								p.rt[i].Vf18CheckDead()
 								p.net.count("late-update")
 								go p.rt[i].Vf18RibUpdateNs(ns)
